@@ -64,6 +64,12 @@ fn grid() -> f64 {
     k as f64 / 32768.0
 }
 
+/// float frames with headroom: k / 8192 in [-4, 4) (float sample formats are not confined to [-1, 1))
+fn grid_headroom() -> f64 {
+    let k: i16 = kani::any();
+    k as f64 / 8192.0
+}
+
 macro_rules! sinc_depth {
     ($m:ident, $d:expr) => {
         pub mod $m {
@@ -106,7 +112,7 @@ macro_rules! sinc_depth {
                 let mut logical = [0.0f64; LEN];
                 let mut p = 0;
                 while p < pushes {
-                    let f = grid();
+                    let f = grid_headroom();
                     s.next_source_frame(f);
                     let mut i = 0;
                     while i < LEN - 1 {
@@ -197,7 +203,8 @@ macro_rules! sinc_depth {
                 kani::cover!(true, "end");
             }
 
-            /// ratio exactly 1: fully primed, x = 0: |out - frame[idx]| <= 1e-12 (peak amplitude 1);
+            /// ratio exactly 1: fully primed, x = 0: |out - frame[idx]| <= 1e-12 (frames in [-4, 4): the bound is
+            /// kept at 1e-12 x 1, i.e. tighter than "1e-12 of the peak input amplitude");
             /// sin/cos are the host libm's values at exactly the kernel's arguments
             #[kani::proof]
             #[kani::unwind(12)]
